@@ -1,6 +1,163 @@
 package props
 
-import "verif/core"
+import (
+	"fmt"
+	"strings"
 
-func c17LookupCases(tier string) int { return 0 }
-func c17Lookup(c *core.Ctx, k int)   {}
+	"github.com/freeconf/yang/node"
+
+	"verif/core"
+	"verif/dp"
+)
+
+// Keyed lookup half of C17: a list kept in a Go slice or map (nodeutil.Reflect / nodeutil.Node over maps, slices of maps,
+// slices of struct pointers / values, keyed maps) must find, for every key type, exactly the entry whose key leaves equal
+// the requested key, and nothing when there is none. The model is the list the harness filled the Go values from.
+
+var c17keyCatalog = map[string][]string{
+	"int8":    {"-128", "-127", "-1", "0", "1", "126", "127"},
+	"int16":   {"-32768", "-1", "0", "1", "255", "256", "32767"},
+	"int32":   {"-2147483648", "-65536", "-1", "0", "1", "65536", "2147483647"},
+	"int64":   {"-9223372036854775808", "-9007199254740993", "-1", "0", "1", "9007199254740993", "9223372036854775807"},
+	"uint8":   {"0", "1", "127", "128", "254", "255"},
+	"uint16":  {"0", "1", "32767", "32768", "65535"},
+	"uint32":  {"0", "1", "2147483647", "2147483648", "4294967295"},
+	"uint64":  {"0", "1", "9007199254740993", "9223372036854775807", "9223372036854775808", "18446744073709551615"},
+	"string":  {"a", "A", "b", "aa", "ab", "zz", "10", "9", "1", "01"},
+	"boolean": {"true", "false"},
+}
+
+type c17keyCfg struct {
+	types []string
+}
+
+var c17keyCfgs = []c17keyCfg{
+	{[]string{"string"}}, {[]string{"int32"}}, {[]string{"int64"}}, {[]string{"int8"}}, {[]string{"int16"}}, {[]string{"uint8"}}, {[]string{"uint16"}},
+	{[]string{"uint32"}}, {[]string{"uint64"}}, {[]string{"boolean"}},
+	{[]string{"int32", "string"}}, {[]string{"uint8", "uint8"}}, {[]string{"string", "boolean"}}, {[]string{"int64", "uint64", "int8"}}, {[]string{"string", "string"}},
+}
+
+func c17LookupCases(tier string) int {
+	n := len(dp.GoModes) * len(c17keyCfgs)
+	if tier == "thorough" {
+		return 6 * n // other PRNG draws: list representations, present/absent split
+	}
+	return n
+}
+
+func c17Lookup(c *core.Ctx, k int) {
+	gm := dp.GoModes[k%len(dp.GoModes)]
+	cfg := c17keyCfgs[(k/len(dp.GoModes))%len(c17keyCfgs)]
+	r := c.Rand
+	supported := false
+	if len(cfg.types) == 1 || gm.Shape == "struct" {
+		supported = true
+		for _, t := range cfg.types {
+			ok := false
+			for _, kt := range dp.GoKeyTypes(gm) {
+				if kt == t {
+					ok = true
+				}
+			}
+			supported = supported && ok
+		}
+	}
+	if !supported {
+		c.Count("lookup_key_config_outside_store_domain")
+		return
+	}
+	// schema: one list, key leaves k0..kn, a payload leaf naming the entry
+	lst := &dp.SNode{Kind: dp.List, Name: "l"}
+	for i, t := range cfg.types {
+		kn := fmt.Sprintf("k%d", i)
+		lst.Keys = append(lst.Keys, kn)
+		lst.Children = append(lst.Children, &dp.SNode{Kind: dp.Leaf, Name: kn, Type: &dp.SType{Base: t}})
+	}
+	lst.Children = append(lst.Children, &dp.SNode{Kind: dp.Leaf, Name: "payload", Type: &dp.SType{Base: "string"}})
+	s := &dp.Schema{Name: "m", Prefix: "m", NS: "urn:m", Top: []*dp.SNode{lst}}
+	if err := s.Compile(); err != nil {
+		c.R.Inconclusive = "lookup schema does not compile: " + head(err.Error(), 200)
+		return
+	}
+	// all key tuples of the catalog product; a PRNG-chosen half is present, the rest is asked for and must not be found
+	tuples := [][]string{{}}
+	for _, t := range cfg.types {
+		var next [][]string
+		for _, pre := range tuples {
+			for _, v := range c17keyCatalog[t] {
+				next = append(next, append(append([]string{}, pre...), v))
+			}
+		}
+		tuples = next
+	}
+	r.Shuffle(len(tuples), func(i, j int) { tuples[i], tuples[j] = tuples[j], tuples[i] })
+	if len(tuples) > 60 {
+		tuples = tuples[:60]
+	}
+	nPresent := (len(tuples) + 1) / 2
+	root := dp.NewDNode(nil)
+	dl := &dp.DList{S: lst}
+	root.Lists["l"] = dl
+	payload := map[string]string{}
+	for i, tu := range tuples[:nPresent] {
+		e := dp.NewDNode(lst)
+		for j, v := range tu {
+			e.Leaves[lst.Keys[j]] = &dp.LVal{V: []string{v}}
+		}
+		p := fmt.Sprintf("entry-%d", i)
+		e.Leaves["payload"] = &dp.LVal{V: []string{p}}
+		payload[strings.Join(tu, "\x00")] = p
+		dl.Entries = append(dl.Entries, e)
+	}
+	g := dp.NewGoStore(r, s, gm, root)
+	repr := g.Repr[lst]
+	c.SetSample(map[string]interface{}{"store": gm.String(), "list": repr, "key-types": cfg.types, "present": nPresent, "asked": len(tuples)})
+	b := g.Browser()
+	for i, tu := range tuples {
+		present := i < nPresent
+		c.Eval()
+		c.Shape("%s/%s/%s/present=%v", gm, repr, strings.Join(cfg.types, ","), present)
+		pth := dp.DPath{{Name: "l", Key: tu}}
+		var sel *node.Selection
+		var err error
+		tag := fmt.Sprintf("%s/%s/%s", gm, repr, strings.Join(cfg.types, ","))
+		if c.Guard("Find "+dp.PathString(pth), func() { sel, err = dp.FindSel(b, pth) }) {
+			continue
+		}
+		if err != nil {
+			c.Violate("lookup-error/"+tag, "Find(%q) on a %s list kept as %s returned %v", dp.PathString(pth), gm, repr, err)
+			continue
+		}
+		if !present {
+			if sel != nil {
+				got, _ := sel.GetValue("payload")
+				c.Violate("lookup-found-absent/"+tag, "Find(%q) selected an entry (payload %v) although no entry has that key; present keys: %v", dp.PathString(pth), got, tuples[:nPresent])
+			}
+			continue
+		}
+		if sel == nil {
+			c.Violate("lookup-missed/"+tag, "Find(%q) selected nothing although the entry exists; present keys: %v", dp.PathString(pth), tuples[:nPresent])
+			continue
+		}
+		var got interface{}
+		if c.Guard("read payload", func() {
+			v, e := sel.GetValue("payload")
+			err = e
+			if v != nil {
+				got = v.Value()
+			}
+		}) {
+			continue
+		}
+		if err != nil || got != payload[strings.Join(tu, "\x00")] {
+			c.Violate("lookup-wrong-entry/"+tag, "Find(%q) selected the entry with payload %v (%v), the entry with that key has payload %q; present keys: %v",
+				dp.PathString(pth), got, err, payload[strings.Join(tu, "\x00")], tuples[:nPresent])
+		}
+	}
+	// the Go values are untouched by lookups
+	if snap, err := g.Snapshot(); err != nil {
+		c.Violate("lookup-store-corrupt/"+gm.String(), "%v", err)
+	} else if d := dp.Diff(s, root, snap, dp.CmpOpts{IgnoreListOrder: true}); d != "" && gm.Shape == "map" {
+		c.Violate("lookup-modified-store/"+gm.String(), "lookups changed the store:\n%s", d)
+	}
+}
